@@ -8,7 +8,10 @@ for p in /verif/mutants/$ID/*.diff; do
   b=$(basename $p)
   case $b in FIX-*|EQUIVALENT-*) continue;; esac
   t0=$(date +%s)
-  res=$(/verif/tools/mutant_run.sh $ID $p --tier $TIER 2>&1)
+  # patches named *FIX+* were written against the tree before the corresponding fix: commit: undo the fix first
+  pp=$p
+  case $b in *FIX+*) rv=$(ls /verif/mutants/$ID/REVERT-*.diff 2>/dev/null | head -1); [ -n "$rv" ] && pp="$rv:$p";; esac
+  res=$(/verif/tools/mutant_run.sh $ID $pp --tier $TIER 2>&1)
   rc=$?
   t1=$(date +%s)
   sig=$(echo "$res" | grep -m1 -o "sig=[^ ]*" )
